@@ -89,6 +89,7 @@ type Exec struct {
 	goInline            []string
 	decided             map[string]bool
 	prefixLen           int
+	gapMemo             map[string]*Term
 	epoch               int
 	pending             *abortSig
 	preempt, maxPreempt int
